@@ -190,6 +190,7 @@ func runShip(sc *bw.Scenario, book *simkit.TapeBook, cl *closure, res *vresult, 
 	os.MkdirAll(dst, 0o755)
 	sched := book.NewSched(log, sc.Seed, "bw/ship", "random")
 	pipe := simkit.NewSimPipe(sc.PipeCap, sched, log)
+	pipe.BreakAt = sc.PipeBreak
 	var werr, rerr error
 	var wpan, rpan interface{}
 	var b2 *sourcebundle.Bundle
@@ -220,6 +221,20 @@ func runShip(sc *bw.Scenario, book *simkit.TapeBook, cl *closure, res *vresult, 
 	out.Decisions += sched.Decisions
 	if wpan != nil || rpan != nil {
 		out.Violate("C19", "ship-panic", "panic", fmt.Sprintf("WriteArchive panic=%v ExtractArchive panic=%v", wpan, rpan))
+		return
+	}
+	if pipe.Fired["break"] > 0 {
+		// the destination failed under WriteArchive: that must be reported, and the receiving
+		// side must not take the partial stream for a bundle
+		out.Fault("pipe/break", 1)
+		if werr == nil {
+			for _, prop := range []string{"C09", "C12"} {
+				out.Violate(prop, "archive-write-error-swallowed", "swallowed", fmt.Sprintf("the pipe broke after %d bytes under WriteArchive, which returned nil", sc.PipeBreak))
+			}
+		}
+		if rerr == nil && b2 != nil {
+			out.Violate("C12", "extract-ok-on-broken-stream", "partial", fmt.Sprintf("the pipe broke after %d bytes but ExtractArchive returned a bundle", sc.PipeBreak))
+		}
 		return
 	}
 	if werr != nil {
